@@ -12,6 +12,7 @@ import (
 	"os"
 	"time"
 	"verifharness/c11x"
+	"verifharness/cryptob"
 
 	"verifharness/geometry"
 	"verifharness/internal/isolate"
@@ -27,6 +28,7 @@ import (
 
 var bindings = map[string]func(in []byte) any{
 	"piecestore": piecestore.Replay,
+	"crypto":     cryptob.Handle,
 	"live":       live.Handle,
 	"peerfsm":    peerfsm.Replay,
 	"upload":     upload.Replay,
